@@ -261,8 +261,9 @@ def check_reference_encoder(classes=60, per_class=3):
 
     from . import kref, shapes
 
-    if "/repo" not in sys.path:
-        sys.path.insert(0, "/repo")
+    _REPO = __import__("os").environ.get("KIO_REPO", "/repo")
+    if _REPO not in sys.path:
+        sys.path.insert(0, _REPO)
     try:
         from tests.hypothesis import configure_hypothesis  # registers the repo's own strategies (Records, ...)
 
